@@ -4,6 +4,7 @@ package harness
 
 import (
 	"fmt"
+	"os"
 	"sort"
 	"strings"
 	"testing"
@@ -60,6 +61,8 @@ type UnitResult struct {
 	Notes          []string         `json:"notes,omitempty"`
 	Internal       []string         `json:"internal_errors,omitempty"`
 	Leftover       int64            `json:"leftover_goroutines"`
+	Pruned         int64            `json:"pruned_alternatives"`
+	DevCapped      int64            `json:"alternatives_beyond_deviation_bound"`
 	WallS          float64          `json:"wall_s"`
 }
 
@@ -130,6 +133,12 @@ func (c *Ctx) addFinding(f *Finding) {
 
 // Explore runs an E1/E2-deviation search of body under the scenario name.
 func (c *Ctx) Explore(scenario string, bound int, body vsched.Body) *vsched.ExploreResult {
+	return c.ExploreDev(scenario, bound, 0, body)
+}
+
+// ExploreDev is Explore with a bound on the total number of non-default
+// scheduling decisions per execution (0 = none).
+func (c *Ctx) ExploreDev(scenario string, bound, maxDev int, body vsched.Body) *vsched.ExploreResult {
 	if c.Replay != nil {
 		if c.Replay.Scenario != scenario {
 			return nil
@@ -148,15 +157,18 @@ func (c *Ctx) Explore(scenario string, bound int, body vsched.Body) *vsched.Expl
 		c.Res.Execs++
 		return nil
 	}
-	opt := vsched.ExploreOpts{Bound: bound, Budget: c.Budget, Fingerprint: fingerprint}
+	opt := vsched.ExploreOpts{Bound: bound, MaxDev: maxDev, Budget: c.Budget, Fingerprint: fingerprint}
 	if c.Sharded {
 		opt.Shard, opt.NShards = c.Shard, c.NShards
 	}
+	opt.NoReduction = os.Getenv("VERIF_NOREDUCE") == "1"
 	r := vsched.Explore(c.T, body, opt)
 	c.Res.Execs += r.Execs
 	c.Res.Transitions += r.Steps
 	c.Res.States += r.ChoicePoints
 	c.Res.Leftover += r.Leftover
+	c.Res.Pruned += r.Pruned
+	c.Res.DevCapped += r.DevCapped
 	for k, v := range r.Outcomes {
 		c.Res.Outcomes[scenario+" => "+k] += v
 	}
@@ -181,7 +193,7 @@ func (c *Ctx) Explore(scenario string, bound int, body vsched.Body) *vsched.Expl
 	}
 	for _, v := range r.Violations {
 		if !v.Stable {
-			c.Res.Internal = append(c.Res.Internal, scenario+": violation did not replay identically: "+v.Fingerprint)
+			c.Res.Internal = append(c.Res.Internal, scenario+": violation did not replay identically: "+v.Fingerprint+" :: "+fmt.Sprint(v.Failures))
 			continue
 		}
 		c.addFinding(&Finding{Property: c.Res.Property, Unit: c.Res.Unit, Scenario: scenario, Fingerprint: v.Fingerprint,
